@@ -448,19 +448,18 @@ def parse_file(path, want=None):
                 if line == "}":
                     cur_alloc = None
                     continue
-                mm = re.match(r"^\s+╾─*(alloc\d+)<imm>─*╼ ((?:[0-9a-f]{2} ){8})│", line)
-                if mm and allocs[cur_alloc][1] == []:
-                    # a single fat pointer (&str / &[u8] static): (target alloc, length)
-                    n = int.from_bytes(bytes(int(t, 16) for t in mm.group(2).split()), "little")
-                    allocs[cur_alloc][1] = ("fatptr", mm.group(1), n)
-                    continue
-                mm = re.match(r"\s+0x[0-9a-f]+ │ ([^│]*)│", line) or re.match(r"^\s+((?:[0-9a-f]{2} )+)\s*│", line)
-                if mm and isinstance(allocs[cur_alloc][1], list):
-                    toks = mm.group(1).split()
-                    if all(re.match(r"^[0-9a-f]{2}$", t) for t in toks):
-                        allocs[cur_alloc][1].extend(int(t, 16) for t in toks)
-                    else:
-                        allocs[cur_alloc][1] = None      # contains pointers / uninit: not decoded
+                body = re.sub(r"^\s+(?:0x[0-9a-f]+ │ )?", "", line)
+                body = body.split("│")[0]
+                if isinstance(allocs[cur_alloc][1], list):
+                    for t in body.split():
+                        mm = re.match(r"^╾─*(alloc\d+)<imm>─*╼$", t)
+                        if mm:
+                            allocs[cur_alloc][1].append(("ptr", mm.group(1)))      # an 8-byte relocation
+                        elif re.match(r"^[0-9a-f]{2}$", t):
+                            allocs[cur_alloc][1].append(int(t, 16))
+                        else:
+                            allocs[cur_alloc][1] = None      # uninit / partial pointers: not decoded
+                            break
                 continue
             if cur is None and line.startswith("alloc"):
                 mm = re.match(r"^(alloc\d+) \((?:static: ([A-Za-z0-9_:]+), )?size: (\d+), align: (\d+)\) \{$", line)
